@@ -6,8 +6,10 @@ import Corro.Props.C02
 #print axioms Corro.Book.step_wf
 #print axioms Corro.Book.reachable_wf
 #print axioms Corro.Book.reachable_wf_from_empty
-#print axioms Corro.Book.isComplete_iff
 #print axioms Corro.Book.advertised_partition
 #print axioms Corro.Book.advertised_inside
+#print axioms Corro.Book.advertised_exact
+#print axioms Corro.Book.advertised_held_counterexample
+#print axioms Corro.Book.advertised_held_partial
 #print axioms Corro.Book.from_conn_roundtrip
 #print axioms Corro.Book.from_conn_head
